@@ -776,6 +776,7 @@ func c13RunSchedule(r *hx.Rand, caseID string, skip bool, script []string, out i
 		put("rot:" + c13SetText(s.served) + ":")
 	}
 	cancels, pid, rots, sp := 0, 0, 0, 0
+	rotInWindow, overtaken, overtakenAfterRot := false, false, false
 	emit := func(head string) {
 		put(head + ":" + strings.Join(c13Canon(s.obs), "/"))
 		s.obs = nil
@@ -881,6 +882,11 @@ func c13RunSchedule(r *hx.Rand, caseID string, skip bool, script []string, out i
 			stats["cancel"]++
 		case "rot":
 			rots++
+			for _, f := range s.fetches {
+				if f.at == "fetched" {
+					rotInWindow = true // the endpoint has answered this download, its result is not published yet
+				}
+			}
 			if scripted {
 				s.served = sc.set
 			} else {
@@ -912,6 +918,14 @@ func c13RunSchedule(r *hx.Rand, caseID string, skip bool, script []string, out i
 			stats["body-"+kind]++
 		case "upd":
 			f := s.fetches[st.id]
+			for _, c := range s.callers {
+				if !c.fin && c.at == "lock" {
+					overtaken = true // a call between its cache lookup and keysFromRemote's critical section while a download is published
+					if rotInWindow {
+						overtakenAfterRot = true
+					}
+				}
+			}
 			s.running++
 			close(f.park)
 			f.park = nil
@@ -946,6 +960,15 @@ func c13RunSchedule(r *hx.Rand, caseID string, skip bool, script []string, out i
 		s.frozen.Store(true)
 	} else {
 		s.abort()
+	}
+	if rotInWindow {
+		stats["rot-between-answer-and-publication"]++
+	}
+	if overtaken {
+		stats["call-overtaken-before-lock"]++
+	}
+	if overtakenAfterRot {
+		stats["call-overtaken-after-rot-in-window"]++
 	}
 	stats["callers-"+strconv.Itoa(len(s.callers))]++
 	stats["fetches-"+strconv.Itoa(min(len(s.fetches), 5))]++
@@ -1032,6 +1055,21 @@ var c13Directed = []struct {
 		"start:k1:2", "go:2", "go:2", "resp:2:null", "upd:2", "go:2", "start:k1:2", "go:3", "go:3", "resp:3:ok-casekeys", "upd:3", "go:3"}},
 	{"wrong-shapes", false, []string{"rot:k1.sig.2.EC.1", "start:k1:2", "go:0", "go:0", "resp:0:array", "upd:0", "go:0", "start:k1:2", "go:1", "go:1", "resp:1:trunc", "upd:1", "go:1",
 		"start:k1:2", "go:2", "go:2", "resp:2:string", "upd:2", "go:2"}},
+	// a rotation BETWEEN a download's answer and its publication, and a second call that misses the cache and is OVERTAKEN by that
+	// publication between its cache lookup and keysFromRemote's critical section: its token is signed with the rotated-in key, which the
+	// endpoint has been serving since before the call began, so the call must trigger a refresh of its own (and then verifies); being
+	// answered from the overtaking, older download is a rejection without a refresh. First with an empty cache, then with a filled one,
+	// then with two overtaken calls (the second one shares the first one's refresh), then the overtaking download failing.
+	{"rotation-overtaken", false, []string{"rot:k1.sig.2.EC.1", "start:k9:2", "go:0", "go:0", "resp:0:ok", "rot:k1.sig.2.EC.1/k2.sig.3.EC.1", "start:k2:3", "go:1",
+		"upd:0", "go:1", "resp:1:ok", "upd:1", "go:1", "go:0"}},
+	{"rotation-overtaken-filled-cache", false, []string{"rot:k1.sig.2.EC.1", "start:k1:2", "go:0", "go:0", "resp:0:ok", "upd:0", "go:0", "start:k9:2", "go:1", "go:1", "resp:1:ok",
+		"rot:k1.sig.2.EC.1/k2.sig.3.EC.1", "start:k2:3", "go:2", "upd:1", "go:2", "go:1", "resp:2:ok", "upd:2", "go:2"}},
+	{"rotation-overtaken-two-calls", false, []string{"rot:k1.sig.2.EC.1", "start:k9:2", "go:0", "go:0", "resp:0:ok", "rot:k2.sig.3.EC.1", "start:k2:3", "start:k2:3", "go:1", "go:2",
+		"upd:0", "go:1", "go:2", "resp:1:ok", "upd:1", "go:2", "go:1", "go:0"}},
+	{"overtaken-by-failed-download", false, []string{"rot:k1.sig.2.EC.1", "start:k9:2", "go:0", "go:0", "resp:0:e5xx", "start:k1:2", "go:1", "upd:0", "go:1", "resp:1:ok", "upd:1", "go:1", "go:0"}},
+	// a SUCCESSFUL download of the empty key set replaces the cache: the retired key verifies nothing any more
+	{"empty-set-replaces-cache", false, []string{"rot:k1.sig.2.EC.1", "start:k1:2", "go:0", "go:0", "resp:0:ok", "upd:0", "go:0", "rot:", "start:k9:2", "go:1", "go:1", "resp:1:null", "upd:1", "go:1",
+		"start:k1:2", "go:2", "go:2", "resp:2:e5xx", "upd:2", "go:2"}},
 	// a waiter's own cancellation fails only itself
 	{"cancel-waiter", false, []string{"rot:k1.sig.2.EC.1", "start:k1:2", "start:k1:2", "go:0", "go:1", "go:0", "go:1", "cancel:1", "go:1", "resp:0:ok"}},
 }
